@@ -314,9 +314,13 @@ string read_all(int fd) {
       throw io_error(fd);
     }
 
+    // A short read does not mean end of stream (pipes and sockets deliver data
+    // as it arrives); only a zero-byte read does
     total_size += bytes_read;
     if (bytes_read < read_size) {
       buffers.back().resize(bytes_read);
+    }
+    if (bytes_read == 0) {
       break;
     }
   }
